@@ -51,8 +51,14 @@ func classifyPanic(r any) outcome {
 	return outcome{Kind: kExplicit, Msg: msg}
 }
 
+// decoderI is what safeDecode drives: a *insts.Disassembler of the harness or
+// whatever decoder a built component holds (emu.Decoder).
+type decoderI interface {
+	Decode(buf []byte) (*insts.Inst, error)
+}
+
 // safeDecode calls the real decoder and classifies what happens.
-func safeDecode(d *insts.Disassembler, b []byte) (o outcome) {
+func safeDecode(d decoderI, b []byte) (o outcome) {
 	defer func() {
 		if r := recover(); r != nil {
 			o = classifyPanic(r)
